@@ -50,7 +50,7 @@ PROPERTIES["C12"] = dict(
     ],
 )
 
-PIPE_FILES = ["pipeline/zz_verif_pipe.go", "pipeline/zz_verif_p08.go", "pipeline/zz_verif_p01.go", "pipeline/zz_verif_p01b.go", "pipeline/zz_verif_p01x.go", "pipeline/zz_verif_p01r.go", "pipeline/zz_verif_p13.go", "pipeline/zz_verif_p13m.go", "pipeline/zz_verif_p10.go", "pipeline/zz_verif_p10r.go", "pipeline/zz_verif_p09.go", "pipeline/zz_verif_p14.go", "pipeline/zz_verif_p12.go", "pipeline/zz_verif_p20.go", "pipeline/zz_verif_p18.go", "pipeline/zz_verif_p07.go", "config::config/zz_verif_export.go", "annotation::annotation/zz_verif_export.go", "assertion/global::global/zz_verif_export.go", "assertion/function/functioncontracts::functioncontracts_export/zz_verif_export.go", "assertion/function::function_export/zz_verif_export.go", "util/tokenhelper::tokenhelper_export/zz_verif_export.go"]
+PIPE_FILES = ["pipeline/zz_verif_pipe.go", "pipeline/zz_verif_p08.go", "pipeline/zz_verif_p01.go", "pipeline/zz_verif_p01b.go", "pipeline/zz_verif_p01x.go", "pipeline/zz_verif_p01y.go", "pipeline/zz_verif_p01r.go", "pipeline/zz_verif_p13.go", "pipeline/zz_verif_p13m.go", "pipeline/zz_verif_p10.go", "pipeline/zz_verif_p10r.go", "pipeline/zz_verif_p09.go", "pipeline/zz_verif_p14.go", "pipeline/zz_verif_p12.go", "pipeline/zz_verif_p20.go", "pipeline/zz_verif_p18.go", "pipeline/zz_verif_p07.go", "config::config/zz_verif_export.go", "annotation::annotation/zz_verif_export.go", "assertion/global::global/zz_verif_export.go", "assertion/function/functioncontracts::functioncontracts_export/zz_verif_export.go", "assertion/function::function_export/zz_verif_export.go", "util/tokenhelper::tokenhelper_export/zz_verif_export.go"]
 INFER_FILES = ["inference/zz_verif_c05.go", "inference/zz_verif_c05l2.go", "inference/zz_verif_c06.go", "inference/zz_verif_c04.go", "inference/zz_verif_c15.go", "inference/zz_verif_c15m.go", "inference/zz_verif_c08.go", "inference/zz_verif_registry.go",
                "annotation::annotation/zz_verif_export.go"]
 
@@ -588,3 +588,14 @@ PROPERTIES["C20"]["runs"] += [
          quick=dict(params=dict(DEPTH=2, CONDS=3, RESULTS=2, STMTKINDS=2)), thorough=dict(params=dict(DEPTH=2, CONDS=3, RESULTS=2, STMTKINDS=2)), args=dict(sample_every=37)),
 ]
 PROPERTIES["C20"]["bounds"]["quick"] += "; K1 also on the 590 depth-2 functions built from return and if/else only (3 condition forms, 2 result forms) - the smallest family in which the empty-table-set defect shows"
+
+_P01Y = dict(pkg="accumulation", files=PIPE_FILES, entry="Harness_P01Y", quick=dict(params=dict(STMTS=2, COMPOUND=5)), thorough=dict(params=dict(STMTS=3, COMPOUND=4, SIMPLE=5)), args=dict(sample_every=61, max_samples=12))
+PROPERTIES["C03"]["runs"] += [dict(_P01Y, name="_chain3")]
+PROPERTIES["C03"]["bounds"]["quick"] += "; source level: the 742 two-statement programs over a chain of three packages (callee in the base, a forwarding function in the middle, the entry on top) vs one package"
+PROPERTIES["C06"]["runs"] += [dict(_P01Y, name="_source_chain3")]
+PROPERTIES["C06"]["explanation"] += (" Source level (P01Y): " + PIPE_EXPL + "the programs of the C01 grammar over a chain of three packages; the flow from the top package's argument to the base package's dereference (and back through the result) "
+    "crosses the middle package's forwarding function, i.e. it is carried by the facts the middle package exports.")
+PROPERTIES["C06"]["bounds"]["quick"] += "; source level: 742 programs over a chain of three packages"
+PROPERTIES["C01"]["runs"] += [dict(_P01Y, name="_three_packages")]
+PROPERTIES["C01"]["bounds"]["quick"] += "; P01Y: the 742 two-statement programs over a chain of three packages"
+PROPERTIES["C01"]["outside"] = [o.replace("more than two packages", "more than three packages") for o in PROPERTIES["C01"]["outside"]]
